@@ -93,10 +93,12 @@ class Tools:
         os.makedirs(self.dir, exist_ok=True)
         try:    # keep the cache small: only the few most recently used trees
             os.utime(self.dir)
+            # (never one that was used in the last six hours: another check — on another tree — may be running from it)
             old = sorted((d for d in os.listdir(CACHE) if os.path.isdir(os.path.join(CACHE, d)) and d != self.hash),
                          key=lambda d: os.path.getmtime(os.path.join(CACHE, d)), reverse=True)[3:]
             for d in old:
-                shutil.rmtree(os.path.join(CACHE, d), ignore_errors=True)
+                if time.time() - os.path.getmtime(os.path.join(CACHE, d)) > 6 * 3600:
+                    shutil.rmtree(os.path.join(CACHE, d), ignore_errors=True)
         except OSError:
             pass
         self.peg = os.path.join(self.dir, 'peg')
@@ -122,10 +124,6 @@ class Tools:
             os.rename(self.pegx + '.tmp', self.pegx)
         if need_lean:
             self.lake_build(['pegmodel'])
-        # drop stale caches
-        for e in os.listdir(CACHE):
-            if e != self.hash and os.path.isdir(os.path.join(CACHE, e)):
-                shutil.rmtree(os.path.join(CACHE, e), ignore_errors=True)
 
     def lake_build(self, targets):
         p = sh(['lake', 'build'] + targets, cwd=LEAN, env=os.environ, check=False, timeout=3600)
